@@ -147,7 +147,10 @@ func (s *objectStore) flush(db *DB) (err error) {
 }
 
 type DB struct {
-	l       sync.RWMutex
+	l sync.RWMutex
+	// sl serializes the lazy loading of schemas, which happens
+	// in functions holding only the read lock
+	sl      sync.Mutex
 	ctx     context.Context
 	cancel  context.CancelFunc
 	root    string
@@ -272,6 +275,13 @@ func (db *DB) safeCountPendingAsyncW(of Object) (n int) {
 
 func (db *DB) schema(of Object) (s *Schema, err error) {
 	var ok bool
+
+	// a schema is loaded the first time it is needed, most of the time by
+	// a function which only holds the read lock: several of them may run
+	// at the same time and must not load (and start the asynchronous
+	// writes routine) concurrently
+	db.sl.Lock()
+	defer db.sl.Unlock()
 
 	if s, ok = db.schemas[stype(of)]; ok {
 		db.startAsyncWritesRoutine(s)
